@@ -64,6 +64,10 @@ def make_frame(rng, n=None, factorial=False, nlev=None, cats=None, extra_cols=Tr
         cols.append(dm.col("junk", "str", [rng.choice(["m", "n"]) for _ in range(n)]))
         cols.append(dm.col("n_trials", "int", [rng.randint(20, 30) for _ in range(n)]))
         cols.append(dm.col("succ", "int", [rng.randint(0, 20) for _ in range(n)]))
+        # a boolean column: numeric 0/1 for formulae (the model sees the integers)
+        bq = dm.col("bq", "int", [rng.randint(0, 1) for _ in range(n)])
+        bq["dtype"] = "bool"
+        cols.append(bq)
     frame = {"columns": cols}
     # make x, z, w not constant / in general position: replace some by distinct values
     return frame
@@ -78,7 +82,7 @@ def frame_levels(frame, name):
     return []
 
 
-NUM_ATOMS = ["x", "z", "w", "center(x)", "scale(z)", "I(x + 1)", "{w * 2}", "I(z ** 2)", "standardize(w)",
+NUM_ATOMS = ["x", "z", "w", "bq", "center(x)", "scale(z)", "I(x + 1)", "{w * 2}", "I(z ** 2)", "standardize(w)",
              "center(x + w)", "scale(center(z))"]
 CAT_ATOMS = ["f", "g", "h", "o", "c", "C(k)", "C(f, Sum)", "C(g, Treatment)", "S(h)", "T(f)", "C(o)",
              "C(h, Sum('v'))", "C(f, Treatment('b'))", "T(g, 'q')", "S(f, 'a')", "C(k, Treatment(2))",
